@@ -580,7 +580,7 @@ fn execute_write_count(db: &core::Db, cypher: &str, params: &Params) -> ApiResul
     }
     let prepared = prepare(cypher).map_err(|e| ApiError::from_query_message(&e.to_string()))?;
     #[cfg(nervusdb_verif)]
-    core::verif::sched("capi.write.after_snapshot");
+    core::verif::sched("capi.write.before_writer_lock");
     // The snapshot is taken under the writer lock: a statement reads the state left by the
     // statement that committed before it, not one from before it started waiting.
     let mut txn = db.begin_write();
